@@ -38,7 +38,7 @@ import (
 
 const (
 	maxStack     = 64 << 20
-	caseLimit    = 10 * time.Second
+	caseLimit    = 4 * time.Second
 	defaultRSS   = 1 << 30
 	exitTime     = 97
 	exitMemory   = 98
